@@ -147,4 +147,50 @@ impl EntitiesRes {
         *alloc.max_id.get_mut() = max_id;
         EntitiesRes { alloc }
     }
+    /// In-place variant of `verif_from_parts`: resets `self` and fills it from the same
+    /// explicit parts, field by field, without ever moving an `EntitiesRes` value (a symbolic
+    /// executor loses track of constants in a large struct that is copied bytewise into a
+    /// heap allocation, e.g. into a `World`).
+    pub fn verif_assign_parts(
+        &mut self,
+        gen_cap: usize,
+        gen_len: usize,
+        slots: &[VerifSlot],
+        cache: &[Index],
+        cache_vec_len: usize,
+        cache_len: usize,
+        max_id: usize,
+    ) {
+        let alloc = &mut self.alloc;
+        alloc.alive.clear();
+        alloc.raised.clear();
+        alloc.killed.clear();
+        let mut gens: Vec<ZeroableGeneration> = Vec::with_capacity(gen_cap);
+        // SAFETY: capacity reserved above; zero is a valid `ZeroableGeneration`.
+        unsafe {
+            std::ptr::write_bytes(gens.as_mut_ptr(), 0, gen_cap);
+            gens.set_len(gen_cap);
+        }
+        alloc.generations = gens;
+        for s in slots {
+            if (s.id as usize) < gen_cap {
+                alloc.generations[s.id as usize] =
+                    ZeroableGeneration(NonZeroI32::new(s.gen).map(Generation));
+            }
+            if s.alive {
+                alloc.alive.add(s.id);
+            }
+            if s.raised {
+                alloc.raised.add(s.id);
+            }
+            if s.killed {
+                alloc.killed.add(s.id);
+            }
+        }
+        alloc.generations.truncate(gen_len);
+        alloc.cache.cache = cache.to_vec();
+        alloc.cache.cache.truncate(cache_vec_len);
+        *alloc.cache.len.get_mut() = cache_len;
+        *alloc.max_id.get_mut() = max_id;
+    }
 }
